@@ -234,12 +234,11 @@ REFINED = [
     "Repr::ones", "clear_high_bits(_large)", "split_bits", "bit_len",
     "set_bit (with_bit_dword_spilled, with_bit_large)", "clear_bit", "count_ones", "count_zeros", "is_power_of_two",
     "next_power_of_two (next_power_of_two_large, checked_next_power_of_two spill)",
+    "primitive-operand forms (impl_binop_with_primitive / impl_commutative_binop_with_primitive / assign forms): UBig::from / "
+    "IBig::from (Repr::from_unsigned, from_signed), the operator, try_into().unwrap() for `& -> uN` — both operand orders",
+    "driver-side specification search specTz (total, returns the unique count)",
 ]
-FRONTIER = [
-    "primitive-operand forms: modelled as convert-then-operate (what impl_binop_with_primitive does); only the "
-    "`x & v in [0, v]` no-panic fact is a theorem, the conversions themselves are C06",
-    "specTz (driver-side trailing-zero search): certified per call by the decidable relation IsTz, completeness not proved",
-]
+FRONTIER = []
 
 EXPLANATION = ("Theorems (all W >= 1, all lengths, canonical operands): the IBig sign tables composed with the unsigned word loops "
                "and add_one/sub_one produce, bit for bit (Mathlib Int.testBit), the AND/OR/XOR/NOT of the two's-complement "
@@ -264,7 +263,8 @@ THEOREMS = ["Dashu.Props.C09." + n for n in [
     "ibig_shr_asis_outside_defect", "ibig_shr_asis_counterexample", "ubig_bit", "ibig_bit", "trailing_zeros",
     "trailing_count_unique", "trailing_ones", "trailing_ones_asis_outside_defect", "trailing_ones_asis_counterexample",
     "ones_exact", "ones_asis_counterexample", "clear_high_bits", "split_bits", "bit_len", "set_bit", "clear_bit", "count_ones",
-    "count_zeros", "is_power_of_two", "next_power_of_two", "trailing_ones_negative", "driver_specs"]] + [
+    "count_zeros", "is_power_of_two", "next_power_of_two", "trailing_ones_negative", "driver_specs",
+    "primitive_forms", "primitive_types_ok", "spec_tz_total"]] + [
     "Dashu.Props.GenBits." + n for n in ["gen_ibig_bitand", "gen_ibig_bitor", "gen_ibig_bitxor",
                                          "gen_ibig_bitand_bits", "gen_ibig_bitor_bits", "gen_ibig_bitxor_bits"]]
 
@@ -283,8 +283,9 @@ LEVEL_TEXT = ("Machine-checked Lean 4 theorems, for every word size and operand 
               "every run by differential execution of model and real code over operands of exactly 0..9 (thorough: ..100) words in "
               "all the boundary patterns of the code, every sign pair, every call form, shift counts/bit positions at all "
               "multiples of the word size and beyond the length. Every operation named in the property (incl. set_bit/clear_bit, "
-              "count_ones/zeros, is/next_power_of_two, trailing_ones of negatives) has its refinement theorem; primitive-operand "
-              "forms are modelled as convert-then-operate and checked by correspondence.")
+              "count_ones/zeros, is/next_power_of_two, trailing_ones of negatives) has its refinement theorem; the primitive-operand "
+              "forms are proved equal to the operator on the converted values (using C06's conversion models) incl. the "
+              "no-panic fact of `& -> uN`.")
 LEVEL_NOTE = ("Trusted: Lean kernel; axioms propext/Classical.choice/Quot.sound; the correspondence harness and generators "
               "(sampling) for the tie model<->code; machine-word primitives at their documented contracts; operands assumed "
               "canonical (producer side is C05/C17). Items listed under frontier_kernels are decided by the correspondence "
